@@ -64,10 +64,13 @@ def run_shard(ctx):
   pipeline.mods()
   pipeline.enable_library_memo()
   counters = hooks.install_counters(['UDF'])
+  from vf.mon import udf_contracts
+  udf_state = udf_contracts.install()
   for i in range(ctx.params['n_programs']):
     run_case(ctx, ctx.rng.randrange(1 << 48), i, ctx.params['n_variants'])
   for k, v in counters.items():
     ctx.count(k, v)
+  ctx.count('udf_contract_evaluations', udf_state['evaluations'])
 
 
 def run_case(ctx, case_seed, i, n_variants):
@@ -121,6 +124,8 @@ def run_case(ctx, case_seed, i, n_variants):
       ctx.violation(key, '%s variant changes the result of %s: %s' % (kind, p, detail),
                     dict(info, program=text, variant=vtext, variant_kind=kind, predicate=p, variant_predicate=vp,
                          base_outcome=b.brief(), variant_outcome=o.brief()))
+    # every row-arrival order this variant produced was observed by the UDF invariants
+    semantic.report_udf_invariants(ctx, dict(info, program=text, variant=vtext, variant_kind=kind))
 
 
 def judge(prog, pred, b, o, ev):
